@@ -905,6 +905,12 @@ func (p *Parser) parseJoin(stmt *SelectStatement) error {
 			if err != nil {
 				return err
 			}
+			// Which side an operand belongs to is decided by the alias it carries, not by its
+			// position: `ON m.id = s.k` is the same predicate as `ON s.k = m.id`.
+			if (hasAliasPrefix(left, jc.Alias) && !hasAliasPrefix(right, jc.Alias)) ||
+				(hasAliasPrefix(right, stmt.SourceAlias) && !hasAliasPrefix(left, stmt.SourceAlias)) {
+				left, right = right, left
+			}
 			jc.OnPairs = append(jc.OnPairs, types.JoinOnPair{
 				StreamField: stripAliasPrefix(left, stmt.SourceAlias, jc.Alias),
 				TableField:  stripAliasPrefix(right, stmt.SourceAlias, jc.Alias),
@@ -966,6 +972,11 @@ func stripAliasPrefix(field, streamAlias, tableAlias string) string {
 		}
 	}
 	return field
+}
+
+// hasAliasPrefix reports whether field is qualified by the (non-empty) alias: "m.id" by "m".
+func hasAliasPrefix(field, alias string) bool {
+	return alias != "" && strings.HasPrefix(field, alias+".")
 }
 
 func (p *Parser) parseGroupBy(stmt *SelectStatement) error {
